@@ -530,7 +530,7 @@ type checkOpts struct {
 
 // Bounds table: per tier engine budgets.
 func tierConfig(tier string, workers int) *Config {
-	cfg := &Config{MaxSteps: 10_000_000, MaxDepth: 3000, MaxPaths: 200_000, QueryTimeoutMs: 20_000,
+	cfg := &Config{MaxSteps: 10_000_000, MaxDepth: 3000, MaxPaths: 200_000, QueryTimeoutMs: 60_000,
 		Workers: workers, Solver: "z3", SampleModels: 12, MaxThreads: 4, MaxPreempt: 2}
 	if tier == "thorough" {
 		cfg.MaxPaths = 3_000_000
